@@ -188,12 +188,18 @@ def ev_exchange(case):
             pt.rng = gen
             if presteps:
                 pt.take_steps(presteps)
-            before = pt.return_chains()
-            a0, s0 = pt.attempted_swaps.copy(), pt.successful_swaps.copy()
-            pt.swap()
-            after = pt.return_chains()
+            rounds = []
+            for _ in range(case.get("rounds", 1)):
+                # consecutive exchange rounds without stepping in between: the second round starts from installed points
+                before = pt.return_chains()
+                a0, s0 = pt.attempted_swaps.copy(), pt.successful_swaps.copy()
+                o0 = len(ctx.obs)
+                pt.swap()
+                o1 = len(ctx.obs)
+                after = pt.return_chains()
+                rounds.append(dict(before=before, after=after, da=pt.attempted_swaps - a0, ds=pt.successful_swaps - s0, obs=(o0, o1)))
             pt.shutdown()
-            out.update(before=before, after=after, da=pt.attempted_swaps - a0, ds=pt.successful_swaps - s0)
+            out["rounds"] = rounds
 
         out, done, excs = run_serial_schedule(parent, seed=seed)
         for e in excs.values():
@@ -208,7 +214,14 @@ def ev_exchange(case):
         if "error" in out:
             add_fail("exchange/swap-or-return_chains-raises-or-blocks", out["error"][:500], choices=ctx.choices)
             continue
-        before, after, da, ds = out["before"], out["after"], out["da"], out["ds"]
+        for ri, rd in enumerate(out["rounds"]):
+            _check_round(rd, ri, ctx, N, ladder, kind, lname, add_fail, tags)
+    return {"fails": fails, "n": n, "states": n, "transitions": n * (N // 2) * case.get("rounds", 1), "tags": tags, "sample": {"config": case, "executions": n}}
+
+
+def _check_round(rd, ri, ctx, N, ladder, kind, lname, add_fail, tags):
+        before, after, da, ds = rd["before"], rd["after"], rd["da"], rd["ds"]
+        obs = ctx.obs[rd["obs"][0] : rd["obs"][1]]
         pairs = [(i, j) for i in range(N) for j in range(N) if da[i, j] > 0]
         # each chain in at most one proposed pair; pairs ordered; floor(N/2) pairs
         used = [i for p in pairs for i in p]
@@ -222,15 +235,17 @@ def ev_exchange(case):
         for i, b in enumerate(before):
             ref = post(b.get_last())
             if abs(L[i] - ref) > 1e-10 * (1 + abs(ref)):
-                raise HarnessError("stored probability differs from posterior before the exchange (C03 territory)")
+                if ri == 0:
+                    raise HarnessError("stored probability differs from posterior before the exchange (C03 territory)")
+                add_fail("exchange/probability-of-installed-point-wrong-before-next-round", f"chain {i}: stored {b.probs[-1]!r}, posterior/T {ref / ladder[i]!r}", choices=ctx.choices)
         want = sorted(min(1.0, math.exp(min((1 / ladder[i] - 1 / ladder[j]) * (L[j] - L[i]), 50))) for i, j in pairs)
-        got = sorted(min(max(o[3], 0.0), 1.0) for o in ctx.obs if o[0] == "cmp")
+        got = sorted(min(max(o[3], 0.0), 1.0) for o in obs if o[0] == "cmp")
         if len(got) != len(want) or any(abs(g - w) > 1e-12 for g, w in zip(got, want)):
             add_fail("exchange/threshold-not-min(1,exp((1/Ti-1/Tj)(Lj-Li)))", f"pairs {pairs}: uniforms compared with {got}, expected {want}", choices=ctx.choices)
         accepted = [(i, j) for (i, j) in pairs if ds[i, j] > 0]
         if np.any(ds > da):
             add_fail("exchange/success-counted-without-attempt", f"{ds.tolist()}", choices=ctx.choices)
-        nacc_obs = sum(1 for o in ctx.obs if o[0] == "cmp" and o[5])
+        nacc_obs = sum(1 for o in obs if o[0] == "cmp" and o[5])
         if nacc_obs != len(accepted):
             add_fail("exchange/successful-swap-count-differs-from-accepted-decisions", f"{nacc_obs} accepted decisions, counted {len(accepted)}", choices=ctx.choices)
         touched = set()
@@ -252,8 +267,7 @@ def ev_exchange(case):
                 add_fail("exchange/unexchanged-chain-modified", f"chain {i}", choices=ctx.choices)
         if len(accepted) < len(pairs):
             tags.add(f"N={N}:rejected-exchange:{kind}")
-        tags.add(f"N={N}:pairs={pairs}")
-    return {"fails": fails, "n": n, "states": n, "transitions": n * (N // 2), "tags": tags, "sample": {"config": case, "executions": n}}
+        tags.add(f"N={N}:pairs={pairs}:round={ri}")
 
 
 def ev_pairs(case):
@@ -416,6 +430,9 @@ def run(ck):
                 ex.append(dict(chains=kind, N=N, seed=1 + seed, presteps=pre))
     for N in (2, 3, 4):
         ex.append(dict(chains="GibbsChain", N=N, seed=1 + seed, presteps=1, ladder="unsorted"))
+    for N in (2, 3):
+        ex.append(dict(chains="GibbsChain", N=N, seed=1 + seed, presteps=1, rounds=2))
+    ex.append(dict(chains="HamiltonianChain", N=2, seed=1 + seed, presteps=0, rounds=3 if not q else 2, ladder="unsorted"))
     if not q:
         ex.append(dict(chains="mixed", N=5, seed=2, presteps=1))
         ex.append(dict(chains="mixed", N=5, seed=2, presteps=1, ladder="unsorted"))
